@@ -100,10 +100,13 @@ package ptrace
 //@   arith int
 //@   assigns nothing
 
-//@ func runner/ptrace.readOpenHowFlags
-//@   trusted "PTRACE_PEEKDATA of the first 8 bytes of struct open_how, native byte order"
-//@   pure
-//@   ensures result.1 == nil ==> result.0 == openhow_flags(pid, uint64(howAddr))
+// the flags word of struct open_how: its first 8 bytes, read from this tracee at the address in the register
+// (body verified: which process, which address, how many bytes; the value read is vocabulary - openhow_flags)
+//@ func runner/ptrace.readOpenHowFlags props C02 C15
+//@   arith int
+//@   assigns nothing
+//@   abstracts result.1 == nil ==> result.0 == openhow_flags(pid, uint64(howAddr))
+//@   callsite syscall.PtracePeekData: assert @C02 pid == caller_pid && addr == howAddr && len(out) == 8
 
 //@ func runner/ptrace.(*tracerHandler).checkOpen props C02 C15
 //@   arith int
